@@ -35,6 +35,9 @@ pub enum Sc {
     Migration { allow: bool },
     /// reload_config: the new config has a different identity and idle timeout
     Reload,
+    /// reload_config on real loopback sockets, without and with re-binding the socket: connections made afterwards see the new
+    /// identity (at the new address when re-bound), the established one keeps working
+    ReloadReal { rebind: bool },
 }
 
 impl Sc {
@@ -48,6 +51,7 @@ impl Sc {
             Sc::IdleRepr { value, side } => json!({"k":"idle_repr","value":value,"side":side}),
             Sc::Migration { allow } => json!({"k":"migration","allow":allow}),
             Sc::Reload => json!({"k":"reload"}),
+            Sc::ReloadReal { rebind } => json!({"k":"reload_real","rebind":rebind}),
         }
     }
     pub fn from_json(v: &Value) -> Sc {
@@ -60,6 +64,7 @@ impl Sc {
             "idle" => Sc::Idle { tc: v["tc"].as_str().unwrap().parse().unwrap(), ts: v["ts"].as_str().unwrap().parse().unwrap(), keep_alive: u("keep_alive"), mode: u("mode") as u8 },
             "idle_repr" => Sc::IdleRepr { value: u("value") as u8, side: u("side") as u8 },
             "migration" => Sc::Migration { allow: v["allow"].as_bool().unwrap() },
+            "reload_real" => Sc::ReloadReal { rebind: v["rebind"].as_bool().unwrap_or(false) },
             _ => Sc::Reload,
         }
     }
@@ -651,6 +656,73 @@ async fn reload() -> Result<String, String> {
     Ok("reload affects new connections only".into())
 }
 
+/// real sockets, real time (every wait bounded by a few seconds): the only scenario family of this check that can re-bind
+async fn reload_real(rebind: bool) -> Result<String, String> {
+    use wtransport::config::IpBindConfig;
+    let real = |ms: u64, what: &'static str| move |_: tokio::time::error::Elapsed| format!("{what} did not finish within {ms} ms");
+    let id_a = wtransport::Identity::self_signed(["localhost"]).map_err(|e| format!("{e:?}"))?;
+    let id_b = wtransport::Identity::self_signed(["localhost"]).map_err(|e| format!("{e:?}"))?;
+    let hash_a = id_a.certificate_chain().as_slice()[0].hash();
+    let hash_b = id_b.certificate_chain().as_slice()[0].hash();
+    let cfg_a = ServerConfig::builder().with_bind_config(IpBindConfig::LocalV4, 0).with_identity(id_a).build();
+    let cfg_b = ServerConfig::builder().with_bind_config(IpBindConfig::LocalV4, 0).with_identity(id_b).build();
+    let server = Endpoint::server(cfg_a).map_err(|e| format!("server endpoint: {e}"))?;
+    let port_a = server.local_addr().map_err(|e| format!("{e}"))?.port();
+    let client = |hash| Endpoint::client(ClientConfig::builder().with_bind_config(IpBindConfig::LocalV4).with_server_certificate_hashes([hash]).build()).map_err(|e| format!("client endpoint: {e}"));
+    let accept_one = || async {
+        loop {
+            let inc = server.accept().await;
+            if let Ok(req) = inc.await {
+                return req.accept().await.map_err(|e| format!("{e:?}"));
+            }
+        }
+    };
+    let c1_ep = client(hash_a.clone())?;
+    let (s1, c1) = tokio::time::timeout(Duration::from_secs(5), async { tokio::join!(accept_one(), c1_ep.connect(format!("https://127.0.0.1:{port_a}/one"))) }).await.map_err(real(5000, "first session"))?;
+    let (s1, c1) = (s1?, c1.map_err(|e| format!("first connect: {e:?}"))?);
+    server.reload_config(cfg_b, rebind).map_err(|e| format!("reload_config(rebind = {rebind}): {e}"))?;
+    let port_b = server.local_addr().map_err(|e| format!("{e}"))?.port();
+    if rebind && port_b == port_a {
+        return Err("reload_config with rebind = true did not re-bind the socket".into());
+    }
+    if !rebind && port_b != port_a {
+        return Err("reload_config with rebind = false changed the local address".into());
+    }
+    // a new connection pinned to the old identity must be refused, one pinned to the new identity must succeed
+    let old_ep = client(hash_a)?;
+    let old = tokio::time::timeout(Duration::from_secs(3), async {
+        tokio::select! {
+            r = old_ep.connect(format!("https://127.0.0.1:{port_b}/old")) => r.is_ok(),
+            _ = async { loop { let inc = server.accept().await; if let Ok(req) = inc.await { let _ = req.accept().await; } } } => false,
+        }
+    })
+    .await
+    .unwrap_or(false);
+    if old {
+        return Err(format!("after reload_config(rebind = {rebind}) a new connection is still served with the previous identity"));
+    }
+    let c2_ep = client(hash_b)?;
+    let (s2, c2) = tokio::time::timeout(Duration::from_secs(5), async { tokio::join!(accept_one(), c2_ep.connect(format!("https://127.0.0.1:{port_b}/two"))) }).await.map_err(real(5000, "session under the new configuration"))?;
+    let (_s2, _c2) = (s2?, c2.map_err(|e| format!("connect with the new identity pinned (rebind = {rebind}): {e:?}"))?);
+    // the established connection is undisturbed (after a re-bind its path has changed at the server side only)
+    let mut st = c1.open_uni().await.map_err(|e| format!("old connection: {e:?}"))?.await.map_err(|e| format!("{e:?}"))?;
+    st.write_all(b"still").await.map_err(|e| format!("{e:?}"))?;
+    if !rebind {
+        let mut r = tokio::time::timeout(Duration::from_secs(3), s1.accept_uni()).await.map_err(real(3000, "stream on the old connection"))?.map_err(|e| format!("{e:?}"))?;
+        let mut b = [0u8; 5];
+        r.read_exact(&mut b).await.map_err(|e| format!("{e:?}"))?;
+    }
+    drop(s1);
+    Ok(format!("real sockets: reload (rebind = {rebind}) affects new connections"))
+}
+
+/// runs a future on a fresh real-time runtime
+fn real_rt<F: std::future::Future<Output = Result<String, String>>>(f: F) -> (Result<String, String>, Vec<String>) {
+    let rt = tokio::runtime::Builder::new_current_thread().enable_all().build().expect("runtime");
+    let r = rt.block_on(f);
+    (r, vec![])
+}
+
 pub fn exec(sc: &Sc) -> Outcome {
     let sim = |f: std::pin::Pin<Box<dyn std::future::Future<Output = Result<String, String>>>>| {
         let (res, info) = run_sim(&SelectPolicy::default(), move || f);
@@ -665,6 +737,7 @@ pub fn exec(sc: &Sc) -> Outcome {
         Sc::Idle { tc, ts, keep_alive, mode } => sim(Box::pin(idle(tc, ts, keep_alive, mode))),
         Sc::Migration { allow } => sim(Box::pin(migration(allow))),
         Sc::Reload => sim(Box::pin(reload())),
+        Sc::ReloadReal { rebind } => real_rt(reload_real(rebind)),
     };
     let mut o = match res {
         Ok(obs) => Outcome::ok(&obs.split(" (").next().unwrap_or("ok").chars().take(40).collect::<String>(), obs),
@@ -716,6 +789,8 @@ pub fn scenarios(tier: Tier) -> Vec<Sc> {
     out.push(Sc::Migration { allow: true });
     out.push(Sc::Migration { allow: false });
     out.push(Sc::Reload);
+    out.push(Sc::ReloadReal { rebind: false });
+    out.push(Sc::ReloadReal { rebind: true });
     out
 }
 
@@ -727,7 +802,7 @@ pub fn run_check(args: &Args) -> i32 {
     let rep = Report::new(
         args,
         "exploration",
-        "complete configuration matrices: binding (server/client x 13 ways: six IpBindConfig presets, explicit v4 / v6 address, with_bind_address_v6 x three dual-stack settings, with_bind_default, pre-bound socket; observed on the socket the endpoint would bind and through Endpoint::server / client + local_addr on real OS sockets); TLS defaults (ALPN list, protocol versions) and ALPN negotiation against raw peers offering h3 / hq-29 / both / nothing in both roles; every builder path (identity, custom TLS, custom transport, custom TLS + transport, prebuilt QUIC config, custom transport on one side only) handshaking on the simulated network, the custom transport's own idle timeout and keep-alive honoured over 30 s of silence; idle timeout on each side in {builder default, 1 s, 5 s, (10 min), disabled} x keep-alive off / T/3 x network partition / idle healthy network, measured in virtual time; representability of max_idle_timeout (0, 1 ms, 30 s, 2^62-1 ms, 2^62 ms, 2^62+1, 2^63, 2^64-1, 2^64, 2^64+1500, 2^64+2^62-1, 3*2^64+7, 999*2^64+30000 ms, 2^62 s, 2^63 s, u64::MAX s, Duration::MAX); client migration with allow_migration on / off; reload_config (identity and transport of new connections, established connection undisturbed)",
+        "complete configuration matrices: binding (server/client x 13 ways: six IpBindConfig presets, explicit v4 / v6 address, with_bind_address_v6 x three dual-stack settings, with_bind_default, pre-bound socket; observed on the socket the endpoint would bind and through Endpoint::server / client + local_addr on real OS sockets); TLS defaults (ALPN list, protocol versions) and ALPN negotiation against raw peers offering h3 / hq-29 / both / nothing in both roles; every builder path (identity, custom TLS, custom transport, custom TLS + transport, prebuilt QUIC config, custom transport on one side only) handshaking on the simulated network, the custom transport's own idle timeout and keep-alive honoured over 30 s of silence; idle timeout on each side in {builder default, 1 s, 5 s, (10 min), disabled} x keep-alive off / T/3 x network partition / idle healthy network, measured in virtual time; representability of max_idle_timeout (0, 1 ms, 30 s, 2^62-1 ms, 2^62 ms, 2^62+1, 2^63, 2^64-1, 2^64, 2^64+1500, 2^64+2^62-1, 3*2^64+7, 999*2^64+30000 ms, 2^62 s, 2^63 s, u64::MAX s, Duration::MAX); client migration with allow_migration on / off; reload_config (identity and transport of new connections, established connection undisturbed; on real loopback sockets also with the socket re-bound)",
     );
     rep.assume("bind rows use real UDP sockets on the loopback / wildcard addresses; IPv6 rows are reported as uncovered when ::1 cannot be bound; the OS default for IPV6_V6ONLY is read from /proc/sys/net/ipv6/bindv6only");
     let scs = scenarios(args.tier);
